@@ -530,16 +530,15 @@ func (self *Analyzer) importItem(node pAst.ImportStatement) ast.AnalyzedImport {
 					)
 				}
 
-				if prev := self.currentModule.addVar(
-					item.Ident,
-					NewVar(
-						fn.Type(item.Span),
-						item.Span,
-						ImportedVariableOriginKind,
-						false,
-					),
+				importedFn := NewVar(
+					fn.Type(item.Span),
+					item.Span,
+					ImportedVariableOriginKind,
 					false,
-				); prev != nil {
+				)
+				importedFn.IsImportedFunction = true
+
+				if prev := self.currentModule.addVar(item.Ident, importedFn, false); prev != nil {
 					self.error(fmt.Sprintf("Name '%s' already exists in current scope", item.Ident), nil, item.Span)
 				}
 
